@@ -181,7 +181,7 @@ def make_file_pair(rng, fmt, workdir, n=None, pos_cls=None):
         R = np.array([A[:3, :3] @ Rk for Rk in R])
     offset = 0.0
     if fmt != "kitti" and rng.random() < .5:
-        offset = float(rng.normal() * 5.0)
+        offset = float("%.9f" % float(rng.normal() * 5.0))  # (no exponent notation: argparse)
         t_est = t_est - offset
     est = {"p": p, "R": R, "t": t_est}
     refp, estp = os.path.join(workdir, "ref.txt"), os.path.join(workdir, "est.txt")
@@ -254,7 +254,7 @@ def draw_common_options(rng, fp):
         argv += ["--t_max_diff", repr(o["t_max_diff"])]
         if fp["offset"] != 0.0 and rng.random() < .9:
             o["t_offset"] = fp["offset"]
-            argv += ["--t_offset", repr(o["t_offset"])]
+            argv += ["--t_offset", "%.9f" % o["t_offset"]]
         if rng.random() < .3:
             tr = fp["t_ref"]
             a, b = sorted(rng.uniform(tr[0], tr[-1], size=2).tolist())
